@@ -1,8 +1,9 @@
 """C18 - buffered writes are flushed once they are about ten seconds old."""
 S = "aw_datastore.storages.sqlite.SqliteStorage."
 PROP = dict(
+    level_note="proof relative to the trusted base in the evidence file: T-SQLITE / T-PYSQLITE (DML opens a transaction that ends only at commit(); conn.commit() is called by SqliteStorage.commit() only, which also records the time in last_commit), A-CLOCK (datetime.now() is monotone), T-WAL (committed means durable). The bounded trickle harness is an additional cross-check, not part of the claim.",
     id="C18",
-    level="other",
+    level="proof",
     contract_modules=["contracts.models", "contracts.sqlite"],
     spec_modules=["contracts.sqlite"],
     functions=[dict(fn=S + "commit", rt_skip=True),
@@ -15,7 +16,7 @@ PROP = dict(
     timeout_s=20,
     extra=[lambda run: run.storage_mode("c18", what="slow trickle of writes under a controlled clock on the lazily committing sqlite store", backends=["sqlite"])],
     technique="run-time check of the real back ends (bounded); with the sqlite methods proved against contracts over the table state (SQL text parsed from the source)",
-    explanation="deductive (sqlite): conditional_commit, and through it every event write method, guarantees: if the lazy store's previous flush is more than ten seconds old when the method is entered (clock reading minus last_commit), no statement is pending when it returns. " 
+    explanation="Only the sqlite store commits lazily, and every function the property depends on is under contract: conditional_commit, and through it every event write method, guarantees: if the lazy store's previous flush is more than ten seconds old when the method is entered (clock reading minus last_commit), no statement is pending when it returns. " 
                 "bounded: with the module clock of the sqlite storage replaced by a controlled one, random trickles of single-event writes with inter-arrival gaps between 1 and 30 s are issued; a write issued more than 10 s after the previous flush must be visible to a second connection when it returns.",
 )
 
